@@ -108,6 +108,7 @@ def run(prog, run):
     roles(prog, run)
     arg_chains(prog, run)
     verbatim_credentials(prog, run)
+    name_tables(prog, run)
 
 
 # --------------------------------------------------------------------------- SCRAM
@@ -731,3 +732,42 @@ def verbatim_credentials(prog, run):
                 run.ok(rid, f.loc(i), '%s stored verbatim (%s)' % (ln['name'], f.fmt(r)[:50]))
     if nw < 4:
         raise AnalysisBroken('C06.R6: only %d writes of the credential members found' % nw)
+
+
+# --------------------------------------------------------------------------- R8: name table and enum agree index by index
+def name_tables(prog, run):
+    rid = run.rule('C06.R8', 'a table of wire names that is indexed by an enumeration lists, at every index, the name of the enumerator with that value: the hash a token mechanism '
+                             'announces (HT-<name>-...) is then the hash that is computed (two entries exchanged relative to the enum make the client announce one algorithm and use '
+                             'the other)', floor=1)
+
+    def norm(x):
+        return re.sub(r'[^a-z0-9]', '', x.lower())
+    n = 0
+    for key, t in prog.tables.items():
+        if not t.get('file', '').endswith('QXmppSasl.cpp') or not t.get('strs'):
+            continue
+        for q, en in prog.enums.items():
+            names = [e_['name'] for e_ in sorted(en['enumerators'], key=lambda e_: e_['v'])]
+            vals = [e_['v'] for e_ in sorted(en['enumerators'], key=lambda e_: e_['v'])]
+            if len(names) != len(t['strs']) or vals != list(range(len(names))):
+                continue
+            nn, ts = [norm(x) for x in names], [norm(x) for x in t['strs']]
+            if sorted(nn) != sorted(ts):
+                continue            # not a table of this enum's names
+            n += 1
+            run.instance(rid)
+            off = [k for k in range(len(nn)) if nn[k] != ts[k]]
+            if off:
+                k = off[0]
+                run.violation(rid, '%s#index-mismatch' % t['name'], '%s:%s' % (t['file'].replace(build_repo() + '/', ''), t.get('line', '')),
+                              'entry %d of %s is "%s" but the enumerator with value %d of %s is %s (%d entries are off): a value converted through the table denotes another '
+                              'algorithm than the one its name says' % (k, t['name'], t['strs'][k], k, q.split('::')[-1], names[k], len(off)))
+            else:
+                run.ok(rid, '%s:%s' % (t['file'].replace(build_repo() + '/', ''), t.get('line', '')), '%s agrees with %s at all %d indices' % (t['name'], q.split('::')[-1], len(nn)))
+    if not n:
+        raise AnalysisBroken('C06.R8: no name table of an enumeration found in QXmppSasl.cpp (ianaHashAlgorithms expected)')
+
+
+def build_repo():
+    from .. import build
+    return build.REPO
